@@ -144,8 +144,8 @@ func runC13(c *runCtx) {
 			}
 			return nil
 		},
-		"parser.Validate":   func(s string) error { return parser.Validate(s) },
-		"parser.ParseBytes": func(s string) error { _, err := parser.ParseBytes([]byte(s)); return err },
+		"parser.Validate":         func(s string) error { return parser.Validate(s) },
+		"parser.ParseBytes":       func(s string) error { _, err := parser.ParseBytes([]byte(s)); return err },
 		"gosqlx.ParseWithContext": func(s string) error { _, err := gosqlx.ParseWithContext(context.Background(), s); return err },
 		"gosqlx.ParseWithTimeout": func(s string) error { _, err := gosqlx.ParseWithTimeout(s, time.Hour); return err },
 		"lowlevel.context": func(s string) error {
